@@ -184,3 +184,46 @@ impl Drop for DeferredWriter<'_> {
         }
     }
 }
+
+/// Verification hook (only with `--cfg flussab_verif`): a copy of the writer's internal state.
+#[cfg(flussab_verif)]
+#[derive(Clone, Debug, PartialEq, Eq, Hash)]
+pub struct VerifWriterState {
+    /// Number of buffered bytes.
+    pub len: usize,
+    /// Capacity of the buffer.
+    pub capacity: usize,
+    /// Whether an IO error is parked.
+    pub io_error: bool,
+    /// Whether a write to the underlying sink is in progress (or panicked).
+    pub panicked: bool,
+}
+
+#[cfg(flussab_verif)]
+impl<'a> DeferredWriter<'a> {
+    /// Verification hook: like [`from_boxed_dyn_write`][Self::from_boxed_dyn_write] but with a
+    /// caller chosen buffer capacity.
+    pub fn verif_with_capacity(write: Box<dyn Write + 'a>, capacity: usize) -> Self {
+        DeferredWriter {
+            write,
+            buf: Vec::with_capacity(capacity),
+            io_error: None,
+            panicked: false,
+        }
+    }
+
+    /// Verification hook: returns a copy of the internal state.
+    pub fn verif_state(&self) -> VerifWriterState {
+        VerifWriterState {
+            len: self.buf.len(),
+            capacity: self.buf.capacity(),
+            io_error: self.io_error.is_some(),
+            panicked: self.panicked,
+        }
+    }
+
+    /// Verification hook: the currently buffered bytes.
+    pub fn verif_buffered(&self) -> &[u8] {
+        &self.buf
+    }
+}
